@@ -7,8 +7,10 @@ TRUST = [
 NP = dict(overlays=['contracts/next_page.ovl'], harness='harness/C02/colreader.c', includes=['.'],
           extra_sources=['stubs/colreader_stubs.c'], trusted=TRUST, prop='C02')
 
-JOBS = [
-    dict(name='c02_next_page', entry='h_next_page', enforce='carquet_read_next_page', replace=['load_next_page'],
-         loop_contracts=False, wip=True, est_s=60,
-         note='FINDING: values of a nullable page read in several calls are taken at row offset, not dense offset', **NP),
-]
+TYPES = [(0, 'boolean'), (1, 'int32'), (2, 'int64'), (3, 'int96'), (4, 'float'), (5, 'double'), (6, 'byte_array'), (7, 'flba')]
+JOBS = []
+for t, tn in TYPES:
+    JOBS.append(dict(name='c02_next_page_%s' % tn, entry='h_next_page', enforce='carquet_read_next_page', replace=['load_next_page'],
+         loop_contracts=False, wip=True, est_s=60, timeout=240, defines=['CQV_TYPE=%d' % t],
+         note='FINDING: values of a nullable page read in several calls are taken at row offset, not dense offset', **NP))
+
